@@ -564,6 +564,10 @@ func main() {
 		mixScenarios(r)
 		r.Finish("debug run: operation-mix histories only", nil)
 	}
+	if os.Getenv("C01_ONLY") == "inflight" { // debugging aid: only the many-in-flight rendezvous rounds
+		inflightScenarios(r)
+		r.Finish("debug run: many-in-flight rendezvous rounds only", nil)
+	}
 	if os.Getenv("C01_ONLY") == "ids" { // debugging aid: only the id value space
 		idScenarios(r)
 		r.Finish("debug run: id value space only", nil)
@@ -603,6 +607,7 @@ func main() {
 	}
 	kit.Events.Reset()
 	slowReader(r, 150, 100<<10)
+	inflightScenarios(r)
 	if os.Getenv("C01_SKIP") != "ids" { // debugging aid
 		idScenarios(r)
 	}
@@ -642,7 +647,11 @@ func main() {
 		"only behind the burst and another P is in flight; the client's notification handlers either make a re-entrant client call (tools/call with its own nonce; stdio: every fourth a ListTools) and wait for it, or wait on a gate released only "+
 		"when Y returned at its caller, or are slow. Every call (X, Y, P, re-entrant R, the fence after the rounds) must return its own nonce and digest; a call that ends in an error although the server recorded its one answer and the fence "+
 		"call afterwards was answered is a violation (answered-call-not-delivered). "+
-		"A case is distinct by (scenario, configuration, regime, id class) — notification bursts: (configuration, handler behaviour, path of the notifications, role of the call, burst size class), counted only in rounds in which handlers were seen running (legacy: notifications were sent) — conn-fault: (configuration, position, fault, retry, arrived on reused/fresh connection, client outcome, handler runs), counted only when the fault was applied to a request that arrived — mix: (configuration, operation, phase of the history, number of calls pending when issued), counted only in histories whose slow calls were all seen pending "+
+		"Many-in-flight rendezvous rounds (numbers well above usual pool / semaphore sizes; the calls cannot complete before the others have ARRIVED, so a cap cannot hide by serialising them): (a) one library client of every kind "+
+		"(5 Streamable configurations, legacy SSE, stdio with a real child process) issues N calls at once (N = 8, 33, 65, 129, thorough 257, each plus a seed-determined 0-3) to a tool whose handler parks until all N handlers are inside it; "+
+		"(b) M library clients in one process (M = 8, 33, 65, thorough 129, plus 0-3) of one HTTP server, each holding its listening stream (stateful Streamable GET SSE, legacy event stream; seen arriving at the server), issue one such call each. "+
+		"All N met: every call must return its own nonce and digest, one handler run per call. Fewer than N arrive and nothing moves: see assumptions. Sizes that do not fit the file-descriptor limit are skipped and counted. "+
+		"A case is distinct by (scenario, configuration, regime, id class) — notification bursts: (configuration, handler behaviour, path of the notifications, role of the call, burst size class), counted only in rounds in which handlers were seen running (legacy: notifications were sent) — many-in-flight: (scenario, configuration, size class), counted only when all N handlers were observed inside the handler together and every answer was verified — conn-fault: (configuration, position, fault, retry, arrived on reused/fresh connection, client outcome, handler runs), counted only when the fault was applied to a request that arrived — mix: (configuration, operation, phase of the history, number of calls pending when issued), counted only in histories whose slow calls were all seen pending "+
 		"until the release — and non-trivial when its answer was checked for id, nonce and digest (mix: against what the call asked for).",
 		[]string{"ids above 2^53 are outside the statement", "interleavings are sampled, not enumerated", "a missing answer is judged after a 20 s wait on an otherwise idle loopback connection",
 			"operation-mix histories: a call is called unanswered only when its 40 s watchdog fired (slow calls: counted from the release of the gate, and only when the handler is recorded to have returned) AND a call issued afterwards on the same client was answered; a transport failure is judged the same way; without the later answer the case is inconclusive",
@@ -650,5 +659,6 @@ func main() {
 			"id value space: an id is echoed when the response id is equal as a JSON value (strings by code points whatever the escaping, numbers by exact value whatever the spelling) and of the same JSON type; integers written with an exponent or a zero fraction may also be refused with an error; on the asynchronous transports an answer is called missing only after the stream delivered nothing for 15 s AND two pings posted afterwards were answered on it, an error frame without id is attributed to a pending number-form request by count",
 			"connection-fault episodes: with a retry option configured the statement gives no number; the check reads it as at most MaxRetries+1 runs; a request the wrapper never handed to the real handler, or one that never arrived, may have 0 runs; a tool not seen running within 8 s on the legacy server (asynchronous) or behind the relay is inconclusive",
 			"notification-burst episodes: per-call contexts (30 s), the stdio transport's request timeout (15 s) and the handlers' gate wait (45 s) are watchdogs; a failed call is a violation only when the server recorded exactly one answer for it AND a fence call issued afterwards on the same client was answered, otherwise inconclusive; a handler blocked on the Streamable client only waits for a call on another HTTP exchange (the Streamable client runs handlers on the stream the notification arrived on)",
+			"many-in-flight rounds: 'call never reached the server' is decided on facts, not on a deadline: all N calls were issued, no new handler arrived for 10 s, the handlers that arrived are all still parked at the rendezvous (nobody is computing), and the number of arrivals is the same before and after a library-free peer on a separate connection was served a whole handshake and a tool call by the same server (stdio has one connection: a ListTools on the same client is answered, behind the calls in the pipe); otherwise the round is inconclusive; after a cap was established for a configuration its larger sizes are skipped (counted)",
 			"back-pressure episodes: an answer is called missing only after the stream delivered nothing for 15 s AND two pings posted afterwards were answered on the same stream (Streamable: the POST's own response ended in order without it)"})
 }
